@@ -28,12 +28,12 @@ def plan(prop, tier):
     q = tier == "quick"
     if prop == "C08":
         return dict(dump=[("C08", 2)], deep=[("C08", 3 if q else 4)], keep=0.5 if q else 1.0,
-                    random=[("C08", 400 if q else 8000, 12 if q else 25)], cases=False)
+                    random=[("C08", 400 if q else 40000, 12 if q else 25)], cases=False)
     if prop == "C17":
         return dict(dump=[("C17", 4 if q else 5)], deep=[("C17", 6 if q else 7)], keep=1.0,
-                    random=[("C17", 400 if q else 8000, 14 if q else 30)], cases=False)
+                    random=[("C17", 400 if q else 30000, 14 if q else 30)], cases=False)
     return dict(dump=[("C16", 2)], deep=[("C16", 3)], keep=1.0,
-                random=[("C08", 200 if q else 3000, 12), ("C17", 100 if q else 2000, 12)], cases=True)
+                random=[("C08", 200 if q else 20000, 12), ("C17", 100 if q else 10000, 12)], cases=True)
 
 
 def run(ctx):
@@ -109,8 +109,8 @@ def run(ctx):
     ncases = 0
     if pl["cases"]:
         cp = ctx.path("client", "cases.ndjson")
-        s3 = ctx.driver_json(["client-cases", "--seed", ctx.seed, "--out", cp, "--maxlen", 80 if ctx.tier == "quick" else 200,
-                              "--reps", 2 if ctx.tier == "quick" else 8])
+        s3 = ctx.driver_json(["client-cases", "--seed", ctx.seed, "--out", cp, "--maxlen", 80 if ctx.tier == "quick" else 400,
+                              "--reps", 2 if ctx.tier == "quick" else 20])
         ncases = s3["stats"]["constants"] + s3["stats"]["fromwire"]
         fc, nc = core.judge_traces(ctx, "client", "ClientTrace", TRACE_CFG, cp, parts=1)
         for f in fc:
